@@ -88,10 +88,25 @@ class Langs:
         for p in list(REFERENCE.values()) + list(DOMAINS.values()) + list(MODELS.values()):
             pts |= RL.points_of(p)
         self.alpha = RL.Alphabet(pts)
-        self.dfa = {tag: RL.compile_regex(self.alpha, p, f) for tag, (p, f, x) in self.patterns.items()}
-        self.ts_ctor = RL.compile_regex(self.alpha, self.ts_pat, self.ts_flags)
+        self.resolve_mode = self._apply_mode(repo.cls('resolver.BaseResolver').methods['resolve'], None)
+        self.ts_mode = self._apply_mode(S.methods['construct_yaml_timestamp'], 'timestamp_regexp')
+        self.dfa = {tag: RL.compile_regex(self.alpha, p, f, mode=self.resolve_mode) for tag, (p, f, x) in self.patterns.items()}
+        self.ts_ctor = RL.compile_regex(self.alpha, self.ts_pat, self.ts_flags, mode=self.ts_mode)
         self.domains = {k: RL.compile_regex(self.alpha, v) for k, v in DOMAINS.items()}
         self.models = {k: RL.compile_regex(self.alpha, v) for k, v in MODELS.items()}
+
+    @staticmethod
+    def _apply_mode(f, attr):
+        """which `re` method applies the compiled pattern (match / fullmatch / search): it decides which ends are anchored."""
+        modes = set()
+        for c in A.func_calls(f.node):
+            if isinstance(c.func, ast.Attribute) and c.func.attr in ('match', 'fullmatch', 'search') and len(c.args) == 1:
+                if attr is None or any(isinstance(x, ast.Attribute) and x.attr == attr for x in ast.walk(c.func.value)):
+                    modes.add(c.func.attr)
+        if len(modes) != 1:
+            raise AnalysisError('%s: how the pattern is applied (match / fullmatch / search) is not a single call: %s'
+                                % (f.qualname, sorted(modes)))
+        return modes.pop()
 
     @staticmethod
     def _flags(call):
